@@ -8,6 +8,71 @@ import (
 func init() {
 	Register("H_C12_Kind", H_C12_Kind)
 	Register("H_C12_Parsed", H_C12_Parsed)
+	Register("H_C12_Nested", H_C12_Nested)
+}
+
+// H_C12_Nested: a node of kind k whose children are again nodes of kind k (two levels deep in
+// one symbolically chosen child position, one level in another): a visitor method is re-entered
+// while its own invocation is still pending. The visit sequence must be the pre-order of the
+// tree (generated slot walker), every node exactly once.
+func H_C12_Nested() {
+	k := ParamInt("kind")
+	synthFixed = true
+	outer := BuildSynth(k, 1)
+	var pos [][2]int // (slot, index in list or -1)
+	for i, sl := range outer.Slots {
+		switch sl.Kind {
+		case SVertex:
+			pos = append(pos, [2]int{i, -1})
+		case SVertexList:
+			for j := range sl.VL {
+				pos = append(pos, [2]int{i, j})
+			}
+		}
+	}
+	if len(pos) == 0 {
+		synthFixed = false
+		Cover("nested")
+		return
+	}
+	put := func(s *Synth, at [2]int, n ast.Vertex) {
+		sl := s.Slots[at[0]]
+		if at[1] < 0 {
+			sl.V = n
+		} else {
+			sl.VL[at[1]] = n
+		}
+		SetSlot(s.N, at[0], sl)
+		s.Slots[at[0]] = sl
+	}
+	a := pos[Choose(len(pos))]
+	b := pos[Choose(len(pos))]
+	mid := BuildSynth(k, 1)
+	inner := BuildSynth(k, 1)
+	other := BuildSynth(k, 1)
+	synthFixed = false
+	put(mid, b, inner.N) // two levels below outer through position a, then b
+	put(outer, a, mid.N)
+	if b != a {
+		put(outer, b, other.N) // and one level through another position
+	}
+	var pre []ast.Vertex
+	Walk(outer.N, nil, func(n, _ ast.Vertex) { pre = append(pre, n) })
+	rec := &RecVisitor{}
+	traverser.NewTraverser(rec).Traverse(outer.N)
+	name := KindNames[k]
+	Observe("visited", len(rec.Seq))
+	if len(rec.Seq) != len(pre) {
+		Fail("C12:nested-same-kind-visit-count", name)
+	} else {
+		for i := range pre {
+			if !SamePtr(rec.Seq[i], pre[i]) {
+				Fail("C12:nested-same-kind-pre-order", name)
+				break
+			}
+		}
+	}
+	Cover("nested")
 }
 
 // H_C12_Kind: traversal of a synthetic node of kind k, every child slot present or
